@@ -26,8 +26,14 @@ fi
 for id in "${IDS[@]}"; do
   p=${id%%-*}
   res=$(timeout 5400 ./tools/mutcheck.sh seeded/$id/patch.diff $p ${EXTRA[$id]:-} 2>&1)
-  echo "$res" | grep -E "^  -> " | while read -r _ c e; do
-    inst=$(echo "$res" | grep -B40 -- "-> $c $e" | grep -E "instance=" | tail -1 | sed -E 's/^ *instance=([^ ]+).*oracle=([a-z-]+).*/\1 [\2]/')
-    echo "$id $c $e ${inst}" | tee -a $OUT
-  done
+  # this run replaces earlier lines of the same seed (one writer at a time)
+  new=$(echo "$res" | grep -E "^  -> " | while read -r _ c e; do
+    inst=""
+    if [ "$e" != "exit=0" ]; then
+      inst=$(echo "$res" | grep -B40 -- "-> $c $e" | grep -E "instance=" | tail -1 | sed -E 's/^ *instance=([^ ]+).*oracle=([a-z-]+).*/\1 [\2]/')
+    fi
+    echo "$id $c $e ${inst}"
+  done)
+  ( flock 9; grep -v "^$id " $OUT > $OUT.tmp.$$; echo "$new" >> $OUT.tmp.$$; mv $OUT.tmp.$$ $OUT ) 9>/tmp/regress.lock
+  echo "$new"
 done
